@@ -186,7 +186,8 @@ def run_dist(ctx, cfg):
 
 
 def pts_nil(tier):
-    return [('target', t) for t in range(256)] + [('len', t, l) for t in (53, 17) for l in range(0, 40)] + [('dist',)]
+    return [('target', t) for t in range(256)] + [('len', t, l) for t in (53, 17) for l in range(0, 40)] + [('dist',)] + \
+           ([('huge', (1 << 20) + 64)] if tier == 'thorough' else [('huge', 70000)])
 
 
 def run_nil(ctx, pt):
@@ -199,6 +200,9 @@ def run_nil(ctx, pt):
             ctx.eq('C19/nilsimsa/digest', r, ('ok', RL.nilsimsa(d, t)))
             if r[0] == 'ok':
                 ctx.eq('C19/nilsimsa/digest-length', len(r[1]), 32)
+    elif pt[0] == 'huge':
+        d = (RL.T0 * (pt[1] // len(RL.T0) + 1))[:pt[1]]          # a very long input through one object (sampled)
+        ctx.eq('C19/nilsimsa/digest/very-long-input', ctx.attempt(lambda: Nilsimsa()(d)), ('ok', RL.nilsimsa(d)))
     elif pt[0] == 'len':
         _, t, l = pt
         for d in (RL.T0[:l], ramp(l, 5, 1), b'z' * l):
@@ -229,7 +233,7 @@ def subchecks():
             bound='final() on a live object whose bucket array is set by hand: every pair (q1, q3) with q1 <= q3 <= 200 (thorough 400), q2 midway, 2 configurations; ratio byte == exact floor(100q/q3) mod 16'),
         Sub('tlsh-reload', pts_reload, run_reload, engine='P', bound='per configuration: up to 10 produced digests + zero, all-ones and single-bit digests: from_hash fields and re-serialisation'),
         Sub('tlsh-distances', pts_dist, run_dist, engine='P', bound='per configuration all ordered pairs of up to 10 digests: (bytes,bytes), reversed, (obj,obj), (obj,bytes), (bytes,obj), obj.distance_to: non-negative int, symmetric, equal across forms, zero on identical, equal to the model score'),
-        Sub('nilsimsa', pts_nil, run_nil, engine='P', bound='every target 0..255 on 4 inputs; targets {53,17} on every length 0..39 x 3 contents; distances on all pairs of 11 digests vs Hamming distance'),
+        Sub('nilsimsa', pts_nil, run_nil, engine='P', bound='every target 0..255 on 4 inputs; targets {53,17} on every length 0..39 x 3 contents; distances on all pairs of 11 digests vs Hamming distance; one input of 70000 bytes (thorough 1 MiB + 64)'),
     ]
 
 
